@@ -184,6 +184,35 @@ theorem intResize_widen {l : List Nat} (t : Nat) (h : WF l) (_h1 : 1 ≤ l.lengt
       rw [if_neg hl0, if_neg hneg, hr, if_neg hneg, val_append, val_replicate_zero, Nat.mul_zero,
         Nat.add_zero]
 
+/-! ### `Int::resize` as one formula -/
+
+theorem ofInt_natCast (t v : Nat) : ofInt t (v : Int) = v % B ^ t := by
+  unfold ofInt
+  rw [← Int.natCast_emod, Int.toNat_natCast]
+
+theorem ofInt_sub_mul (t v K : Nat) : ofInt t ((v : Int) - ((B ^ t * K : Nat) : Int)) = v % B ^ t := by
+  unfold ofInt
+  rw [Int.natCast_mul, Int.sub_mul_emod_self_left, ← Int.natCast_emod, Int.toNat_natCast]
+
+theorem ofInt_toInt {r : List Nat} (t : Nat) (hr : WF r) (ht : t ≤ r.length) :
+    ofInt t (toInt r) = val r % B ^ t := by
+  rw [toInt_eq hr]
+  have hp : B ^ r.length = B ^ t * B ^ (r.length - t) := by
+    rw [← Nat.pow_add]; congr 1; omega
+  by_cases hneg : HALF ≤ r.getLastD 0
+  · rw [if_pos hneg, hp, ofInt_sub_mul]
+  · rw [if_neg hneg, ofInt_natCast]
+
+/-- `Int::resize` in one formula: the `T`-limb two's-complement pattern of the signed value -/
+theorem intResize_ofInt {l : List Nat} (t : Nat) (h : WF l) (h1 : 1 ≤ l.length) :
+    val (intResize t l) = ofInt t (toInt l) := by
+  by_cases ht : t ≤ l.length
+  · rw [(intResize_shorten t h ht).2, ofInt_toInt t h ht]
+  · have ⟨e, hwf, hlen⟩ := intResize_widen t h h1 (by omega)
+    rw [← e, ofInt_toInt t hwf (by omega)]
+    have hv := val_lt hwf
+    rw [hlen] at hv
+    exact (Nat.mod_eq_of_lt hv).symm
 /-! ### signed primitives -/
 
 theorem signExtend_spec {bits v : Nat} (hb1 : 1 ≤ bits) (hb : bits ≤ 64) (hv : v < 2 ^ bits) :
